@@ -126,7 +126,7 @@ def memset_inst(numkind, tier):
                 pre=SPEC + MEMSET_STUB, extra_replace=['vstd_memset'], replay={'kind': 'memset', 'numkind': numkind})
 
 
-def memcpy_inst(srckind, tier):
+def memcpy_inst(srckind, tier, numkind='plain'):
     """srckind: raw (const char* in application or sandbox memory) | tainted"""
     P = '((uintptr_t)$1.data)'
     if srckind == 'raw':
@@ -134,6 +134,10 @@ def memcpy_inst(srckind, tier):
     else:
         sparam, S, sdecl, sarg = 'tainted<const char*, vsbx> src', '((uintptr_t)$2.data)', 'uintptr_t in_s; struct %s src; src.data = (const char *)in_s;' % cs('rlbox::tainted<const char *, rlbox::vsbx>'), 'src'
     NUM = 'MI($3)'
+    nparam, ndecl, narg = 'size_t num', 'unsigned long in_num;', 'in_num'
+    if numkind == 'tainted':
+        TSZ = cs('rlbox::tainted<unsigned long, rlbox::vsbx>')
+        NUM, nparam, ndecl, narg = 'MI($3.data)', 'tainted<size_t, vsbx> num', 'unsigned long in_num; struct %s tn; tn.data = in_num;' % TSZ, 'tn'
     cl = SB_REQ + [
         ('ptr_inv', '__CPROVER_requires(%s == 0 || V_WHICH(%s) != -1)' % (P, P)),
         ('src_inv', '__CPROVER_requires(%s)' % ('%s < 0x8000000000000000UL /* application pointers are canonical user addresses */' % S if srckind == 'raw' else '%s == 0 || V_WHICH(%s) != -1' % (S, S))),
@@ -143,30 +147,42 @@ def memcpy_inst(srckind, tier):
         ('returns_dest', '__CPROVER_ensures((uintptr_t)$ret.data == %s)' % P),
         ('frame', '__CPROVER_assigns(g_memcpy_calls)'),
     ]
-    h = SB_HARNESS + ('  struct %s p; uintptr_t in_p; p.data = (char *)in_p; %s unsigned long in_num;\n'
+    h = SB_HARNESS + ('  struct %s p; uintptr_t in_p; p.data = (char *)in_p; %s %s\n'
                       '  g_exp_d = in_p; g_exp_s = in_s; g_exp_n = in_num; g_memcpy_calls = 0;\n'
-                      '  struct %s r = $ROOT(&sb, p, %s, in_num);\n' % (TCHAR, sdecl, TCHAR, sarg))
-    return Inst('c10_memcpy_src_%s' % srckind, 'rlbox_sandbox<vsbx>& s, tainted<char*, vsbx> p, %s, size_t num' % sparam, 'memcpy(s, p, src, num);',
+                      '  struct %s r = $ROOT(&sb, p, %s, %s);\n' % (TCHAR, sdecl, ndecl, TCHAR, sarg, narg))
+    return Inst('c10_memcpy_src_%s%s' % (srckind, '' if numkind == 'plain' else '_tainted_size'), 'rlbox_sandbox<vsbx>& s, tainted<char*, vsbx> p, %s, %s' % (sparam, nparam), 'memcpy(s, p, src, num);',
                 cl, h, leaves=['dynamic_check', 'vsbx.impl_get_total_memory', CHECK_RANGE_LEAF], prop=PROP, root_name='memcpy', tier=tier,
                 pre=SPEC + MEMCPY_STUB, extra_replace=['vstd_memcpy'], replay={'kind': 'memcpy', 'srckind': srckind})
 
 
-def memcmp_inst(tier):
+def memcmp_inst(tier, srckind='raw', numkind='plain'):
+    """srckind: raw (const char*) | tainted (tainted<const char*>); numkind: plain size_t | tainted<size_t>"""
     P = '((uintptr_t)((const struct %s *)$1)->data)' % TCHAR
-    S = '((uintptr_t)*$2)'
-    NUM = 'MI(*$3)'
+    if srckind == 'raw':
+        S, sparam, sdecl, sarg = '((uintptr_t)*$2)', 'const char*& src', 'uintptr_t in_s; const char *src = (const char *)in_s;', '&src'
+        src_inv = '%s < 0x8000000000000000UL' % S
+    else:
+        TCC = cs('rlbox::tainted<const char *, rlbox::vsbx>')
+        S, sparam, sdecl, sarg = '((uintptr_t)((const struct %s *)$2)->data)' % TCC, 'tainted<const char*, vsbx>& src', 'uintptr_t in_s; struct %s src; src.data = (const char *)in_s;' % TCC, '&src'
+        src_inv = '%s == 0 || V_WHICH(%s) != -1' % (S, S)
+    if numkind == 'plain':
+        NUM, nparam, ndecl, narg = 'MI(*$3)', 'size_t& num', 'unsigned long in_num;', '&in_num'
+    else:
+        TSZ = cs('rlbox::tainted<unsigned long, rlbox::vsbx>')
+        NUM, nparam, ndecl, narg = 'MI(((const struct %s *)$3)->data)' % TSZ, 'tainted<size_t, vsbx>& num', 'unsigned long in_num; struct %s tn; tn.data = in_num;' % TSZ, '&tn'
     cl = SB_REQ + [
         ('ptr_inv', '__CPROVER_requires(%s == 0 || V_WHICH(%s) != -1)' % (P, P)),
-        ('src_inv', '__CPROVER_requires(%s < 0x8000000000000000UL)' % S),
+        ('src_inv', '__CPROVER_requires(%s)' % src_inv),
         ('ghost_args', '__CPROVER_requires(g_exp_d == %s && g_exp_s == %s && MI(g_exp_n) == %s && g_memcmp_calls == 0)' % (P, S, NUM)),
         ('noabort_pre', '__CPROVER_requires(g_noabort ==> (%s >= 1 && %s <= MI(V_SIZE[g_slot]) && WHOLLY_IN_SOME(%s, %s) && (WHOLLY_IN_SOME(%s, %s) || (WHOLLY_OUT(0, %s, %s) && WHOLLY_OUT(1, %s, %s)))))' % (NUM, NUM, P, NUM, S, NUM, S, NUM, S, NUM)),
         ('performed_once', '__CPROVER_ensures(g_memcmp_calls == 1)'),
         ('frame', '__CPROVER_assigns(g_memcmp_calls)'),
     ]
-    h = SB_HARNESS + ('  struct %s p; uintptr_t in_p; p.data = (char *)in_p; uintptr_t in_s; const char *src = (const char *)in_s; unsigned long in_num;\n'
+    h = SB_HARNESS + ('  struct %s p; uintptr_t in_p; p.data = (char *)in_p; %s %s\n'
                       '  g_exp_d = in_p; g_exp_s = in_s; g_exp_n = in_num; g_memcmp_calls = 0;\n'
-                      '  $ROOT(&sb, &p, &src, &in_num);\n' % TCHAR)
-    return Inst('c10_memcmp_raw', 'rlbox_sandbox<vsbx>& s, tainted<char*, vsbx>& p, const char*& src, size_t& num', 'memcmp(s, p, src, num);',
+                      '  $ROOT(&sb, &p, %s, %s);\n' % (TCHAR, sdecl, ndecl, sarg, narg))
+    name = 'c10_memcmp_%s%s' % (srckind, '' if numkind == 'plain' else '_tainted_size')
+    return Inst(name, 'rlbox_sandbox<vsbx>& s, tainted<char*, vsbx>& p, %s, %s' % (sparam, nparam), 'memcmp(s, p, src, num);',
                 cl, h, leaves=['dynamic_check', 'vsbx.impl_get_total_memory', CHECK_RANGE_LEAF], prop=PROP, root_name='memcmp', tier=tier,
                 pre=SPEC + MEMCMP_STUB, extra_replace=['vstd_memcmp'], replay={'kind': 'memcmp'})
 
@@ -313,14 +329,51 @@ def grant_access_inst(el, esz, tier):
                 root_name='copy_memory_or_grant_access', tier=tier, pre=GRANT_SPEC, extra_replace=['vstd_free'])
 
 
+def native_access_inst(which, el, esz, tier):
+    """native path of copy_memory_or_grant/deny_access on a backend with can_grant_deny_access: what INTERNAL_grant_access /
+    INTERNAL_deny_access is handed is a range of num whole elements that does not straddle the sandbox boundary (deny: lies
+    wholly inside one sandbox).  The backend call itself is a stub that succeeds."""
+    SBG = cs('rlbox::rlbox_sandbox<rlbox::vsbx_gd>')
+    cel = {'char16_t': 'unsigned short'}.get(el, el)
+    BYTES = '(MI($1) * MI(%d))' % esz
+    if which == 'grant':
+        A = '((uintptr_t)$0)'
+        leaf = ('rlbox_sandbox::INTERNAL_grant_access(stub: succeeds)', lambda fn, rec: fn.get('name') == 'INTERNAL_grant_access',
+                '__CPROVER_requires(%s != 0 && %s < (MI(1) << 64) && V_WHICH(%s) == V_WHICH(%s + $1 * %dUL - 1)) /*@granted_range_has_num_whole_elements_on_one_side_of_the_boundary*/\n'
+                '__CPROVER_ensures(*$2 == 1 && (uintptr_t)$ret.data == %s && g_native_calls == __CPROVER_old(g_native_calls) + 1)\n__CPROVER_assigns(*$2, g_native_calls)' % (A, BYTES, A, A, esz, A))
+        TT = cs('rlbox::tainted<%s *, rlbox::vsbx_gd>' % el)
+        params, expr, rn = 'rlbox_sandbox<vsbx_gd>& s, %s* src, size_t num, bool fr, bool& copied' % el, 'copy_memory_or_grant_access(s, src, num, fr, copied);', 'copy_memory_or_grant_access'
+        decl = '  uintptr_t in_s; unsigned long in_num; _Bool in_free; _Bool copied;\n  struct %s r = $ROOT(&sb, (%s *)in_s, in_num, in_free, &copied);\n' % (TT, cel)
+        post = [('moved_not_copied', '__CPROVER_ensures(g_native_calls == 1 && *$4 == 0 && (uintptr_t)$ret.data == (uintptr_t)$1)')]
+    else:
+        TT = cs('rlbox::tainted<%s *, rlbox::vsbx_gd>' % el)
+        A = '((uintptr_t)$0.data)'
+        leaf = ('rlbox_sandbox::INTERNAL_deny_access(stub: succeeds)', lambda fn, rec: fn.get('name') == 'INTERNAL_deny_access',
+                '__CPROVER_requires(%s < (MI(1) << 64) && WHOLLY_IN_SOME(%s, %s)) /*@denied_range_has_num_whole_elements_inside_one_sandbox*/\n'
+                '__CPROVER_ensures(*$2 == 1 && (uintptr_t)$ret == %s && g_native_calls == __CPROVER_old(g_native_calls) + 1)\n__CPROVER_assigns(*$2, g_native_calls)' % (BYTES, A, BYTES, A))
+        params, expr, rn = 'rlbox_sandbox<vsbx_gd>& s, tainted<%s*, vsbx_gd> src, size_t num, bool fr, bool& copied' % el, 'copy_memory_or_deny_access(s, src, num, fr, copied);', 'copy_memory_or_deny_access'
+        decl = ('  struct %s src; uintptr_t in_p; src.data = (%s *)in_p; __CPROVER_assume(in_p == 0 || V_WHICH(in_p) != -1); unsigned long in_num; _Bool in_free; _Bool copied;\n'
+                '  void *r = (void *)$ROOT(&sb, src, in_num, in_free, &copied);\n' % (TT, cel))
+        post = [('moved_not_copied', '__CPROVER_ensures(g_native_calls == 1 && *$4 == 0 && (uintptr_t)$ret == (uintptr_t)$1.data)')]
+    cl = [('wf', '__CPROVER_requires(V_BACKEND_WF && g_native_calls == 0 && __CPROVER_w_ok($4, 1))'),
+          ('sandbox_obj', '__CPROVER_requires(__CPROVER_r_ok($0, sizeof(struct %s)) && ($0->base0.base0.slot == 0 || $0->base0.base0.slot == 1) && V_LIVE($0->base0.base0.slot))' % SBG)] + post + [
+          ('frame', '__CPROVER_assigns(g_native_calls, *$4)')]
+    h = ('  struct %s sb; int in_slot; sb.base0.base0.slot = in_slot; unsigned long in_base0, in_size0, in_base1, in_size1;\n'
+         '  V_BASE[0] = in_base0; V_SIZE[0] = in_size0; V_BASE[1] = in_base1; V_SIZE[1] = in_size1;\n'
+         '  __CPROVER_assume(V_BACKEND_WF && (in_slot == 0 || in_slot == 1) && V_LIVE(in_slot)); g_noabort = 0; g_native_calls = 0;\n' % SBG) + decl
+    return Inst('c10_%s_access_native_%s' % (which, tid(el)), params, expr, cl, h, leaves=['dynamic_check', CHECK_RANGE_LEAF, leaf], prop=PROP, root_name=rn, tier=tier,
+                pre=SPEC + ' unsigned g_native_calls;\n', solvers=('cadical', 'minisat'), timeout=400, note='backend with can_grant_deny_access (vsbx_gd); the backend move itself is a stub that reports success')
+
+
 def units(tier):
     insts = [check_range_inst(tier), memset_inst('plain', tier), memset_inst('tainted', tier), memcpy_inst('raw', tier),
-             memcpy_inst('tainted', tier), memcmp_inst(tier)]
+             memcpy_inst('tainted', tier), memcmp_inst(tier), memcmp_inst(tier, 'tainted'), memcmp_inst(tier, 'raw', 'tainted'), memcpy_inst('raw', tier, 'tainted')]
     for pt in (['int', 'char', 'long'] if tier == 'quick' else ['int', 'char', 'long', 'short', 'double', 'long long', 'unsigned char']):
         insts.append(unverified_ptr_inst(pt, tier))
     for pt in (['char', 'long'] if tier == 'quick' else ['int', 'char', 'long', 'short', 'double']):
         insts.append(buffer_address_inst(pt, tier))
-    insts += [deny_access_inst('char', 1, tier), deny_access_inst('char16_t', 2, tier), grant_access_inst('char', 1, tier), grant_access_inst('char16_t', 2, tier)]
+    insts += [deny_access_inst('char', 1, tier), deny_access_inst('char16_t', 2, tier), grant_access_inst('char', 1, tier), grant_access_inst('char16_t', 2, tier),
+              native_access_inst('grant', 'char16_t', 2, tier), native_access_inst('deny', 'char16_t', 2, tier), native_access_inst('deny', 'char', 1, tier)]
     return [Unit('C10_bulk', insts, extra_cpp=EXTRA_CPP)]
 
 
